@@ -422,3 +422,16 @@ PROPS["C09"]["level_text"] += " ensure_writable refuses exactly when the poison 
 PROPS["C09"]["functions"] += [IO + "::ensure_writable", IO + "::poison_writes", IO + "::write_sectors_sync", IO + "::flush"]
 PROPS["C11"]["level_text"] += " The background sweeper (one arbitrary candidate) and recovery's expired-winner pass remove an entry only under its guard when it is the sampled/collected generation with 0 < expiry < now, and adjust counters only then."
 PROPS["C11"]["functions"] += ["src/core/ttl_sweep.rs::sample_and_expire_batch", REC + "::remove_expired_recovery_winners"]
+
+PROPS["C04"] = {
+    "engine_name": "E2-mir-smt",
+    "technique": "SMT (z3) path-condition entailment and trace obligations over the MIR of the recovery scan (one arbitrary loop iteration + prologue/epilogue), of journal replay and of the journaled retirement path",
+    "level_text": "Reduced claim – the step obligations behind 're-runnable repairs that only touch dead blocks', not idempotence over crash images: (i) replay_allocation_journal writes the markers first and clears the journal last, only after the markers are durable, so a crash during replay leaves the journal active (re-runnable); (ii) the scan replays the journal before the first block is read and never for a read-only open; (iii) ONE ARBITRARY iteration of the scan loop: an extent is queued for retirement only if it is (a) the scanned record's own extent when an already indexed generation of its key is NEWER, (b) the REPLACED generation's extent (same sector and length as what is released) when the scanned record wins, or (c) an incomplete retirement-marker extent starting at the scanned sector; indexing a new key queues nothing; a verified record is never discarded unless a newer generation is indexed; (iv) after the loop the queued extents go only through the journaled DiskIO::retire_extents (ACTIVE journal -> markers -> CLEAR, each step after the previous returned Ok), never raw writes, never for a read-only open, and the scan reports success only if they were made durable.",
+    "level_note": E2NOTE + ". Equality of contents across repeated recoveries of a crash image, nested crashes inside recovery, and expiry between opens are NOT decided (no engine here can run a whole scan over a device image).",
+    "functions": [REC + "::scan_and_rebuild_indexes", IO + "::replay_allocation_journal", IO + "::retire_extents"],
+    "smt": "c04",
+    "bounds": "one arbitrary scan iteration (~670 paths), prologue and epilogue paths; journal chunk loop: one arbitrary iteration",
+    "stubs": [],
+    "assumptions": ["winner selection depends only on on-disk timestamps and positions (what the iteration analysis havocs)"],
+    "outside": "whole-image idempotence, crash points inside recovery, remove_expired_recovery_winners' interplay with time",
+}
